@@ -36,7 +36,7 @@ def okOf : String → Option Bool
   | "ok" => some true | "err" => some false | _ => none
 
 def tagName : Tag → String
-  | .rh => "rh" | .rd => "rd" | .re => "re" | .rx => "rx" | .sh => "sh" | .sd => "sd" | .se => "se" | .sx => "sx"
+  | .rh => "rh" | .rd => "rd" | .rt => "rt" | .re => "re" | .rx => "rx" | .sh => "sh" | .sd => "sd" | .st => "st" | .se => "se" | .sx => "sx"
 
 def outName : Out → Option String
   | .hook h => some ("H:" ++ hookName h)
@@ -62,6 +62,8 @@ def parseEv : List String → Option Ev
     pure (.reqHeaders e n k ws)
   | ["rd", n] => do let n ← n.toNat?; pure (.reqData n)
   | ["re"] => some .reqEOM
+  | ["rt"] => some .reqTrailers
+  | ["st"] => some .respTrailers
   | ["rx"] => some .reqErr
   | ["sh", e, n, k] => do
     let e ← boolOf e; let n ← n.toNat?; let k ← respKindOf k
@@ -116,7 +118,7 @@ def actions : List Action := [.pass, .kill, .resp, .stream]
 def allEv : List AEv :=
   (bools.flatMap fun e => [ReqKind.norm, .connect, .nohost, .invalid].flatMap fun k => bools.flatMap fun ws =>
       verdicts.map fun v => AEv.reqHeaders e k ws v)
-  ++ (verdicts.map .reqData) ++ (bools.map .reqEOM) ++ [.reqErr]
+  ++ (verdicts.map .reqData) ++ (bools.map .reqEOM) ++ [.reqErr, .reqTrailers, .respTrailers]
   ++ (bools.flatMap fun e => [RespKind.norm, .ws101, .up101, .invalid].flatMap fun k => verdicts.map fun v => AEv.respHeaders e k v)
   ++ (verdicts.map .respData) ++ (bools.map .respEOM) ++ [.respErr]
 
